@@ -41,3 +41,38 @@ pub trait ActTask: Clone + Send {
         ctx.emit_error()
     }
 }
+
+/// verification hook: the execution tree built from a model, as plain data
+/// (every node with its parent / next / prev links and its normal, catch and timeout outputs)
+#[cfg(feature = "verif")]
+pub fn verif_tree(model: &crate::Workflow) -> serde_json::Value {
+    let mut model = model.clone();
+    let tree = match tree::NodeTree::build(&mut model) {
+        Ok(tree) => tree,
+        Err(err) => return serde_json::json!({ "err": err.to_string() }),
+    };
+    if let Some(err) = &tree.error {
+        return serde_json::json!({ "err": err.to_string() });
+    }
+    let map = tree.node_map.read().unwrap();
+    let mut nodes = Vec::new();
+    for (id, node) in map.iter() {
+        let children: Vec<serde_json::Value> = node
+            .children
+            .read()
+            .unwrap()
+            .iter()
+            .map(|c| serde_json::json!({ "typ": format!("{:?}", c.typ), "on": c.on, "id": c.node.id() }))
+            .collect();
+        nodes.push(serde_json::json!({
+            "id": id,
+            "kind": node.kind().to_string(),
+            "level": node.level,
+            "parent": node.parent().map(|n| n.id().to_string()),
+            "next": node.next().upgrade().map(|n| n.id().to_string()),
+            "prev": node.prev().upgrade().map(|n| n.id().to_string()),
+            "children": children,
+        }));
+    }
+    serde_json::json!({ "root": tree.root().map(|n| n.id().to_string()), "nodes": nodes })
+}
